@@ -9,7 +9,10 @@ Relevant == \/ m.mk \in {"constructor", "named_constructor"} /\ f.static_accesso
             \/ m.mk \in {"getter", "setter"} /\ f.constructors /\ f.fallible_constructors
             \/ m.mk \notin {"constructor", "named_constructor", "getter", "setter"} /\ f.constructors /\ f.fallible_constructors /\ f.static_accessors
 Emit == Relevant => PrintT(<<"CASE", ToJson([m |-> m, f |-> f, errs |-> Errs(m, f)])>>)
-Props == Satisfiable /\ FlagsOnlyMatterThere /\ ValueTypesAreImmutable
+Props == Satisfiable /\ FlagsOnlyMatterThere /\ ValueTypesAreImmutable /\ RelLaws
+EmitOps == PrintT(<<"OPS", ToJson([rel |-> [op \in RelOps |-> [o \in {"lt", "eq", "gt"} |->
+                                     RelHolds(op, CASE o = "lt" -> -1 [] o = "eq" -> 0 [] o = "gt" -> 1)]],
+                                   arith |-> ArithOp])>>)
 \* the properties are constant-level: one state suffices to have TLC evaluate them
 One == CHOOSE x \in Methods : TRUE
 InitOne == m = One /\ f = [constructors |-> TRUE, fallible_constructors |-> TRUE, static_accessors |-> TRUE] /\ done = TRUE
